@@ -226,7 +226,7 @@ theorem per_stream_exact_grpc (P : Params) (hP : P.GoodGrpc)
     (herr : ReaderDelivers P.chunk errWrites.flatten errReads)
     (hsel : GrpcSelect P outReads errReads sel) :
     grpcDeliver P sel = ⟨outWrites.flatten, errWrites.flatten⟩ := by
-  obtain ⟨_, hsend, hskip, hto, hte⟩ := hP
+  obtain ⟨_, hsend, hskip, hto, hte, _⟩ := hP
   have h := demux_merge P hskip hsel
     (fun m hm => by rw [recvFrom_chan _ _ m hm]; exact hto)
     (fun m hm => by rw [recvFrom_chan _ _ m hm]; exact hte)
@@ -247,7 +247,7 @@ theorem before_attach_retained_grpc (P : Params) (hP : P.GoodGrpc)
     let d := grpcDeliver P (sel.take k)
     d.out <+: preOut.flatten ++ postOut.flatten ∧ (d.out <+: preOut.flatten ∨ preOut.flatten <+: d.out) ∧
     d.err <+: preErr.flatten ++ postErr.flatten ∧ (d.err <+: preErr.flatten ∨ preErr.flatten <+: d.err) := by
-  obtain ⟨_, hsend, hskip, hto, hte⟩ := hP
+  obtain ⟨_, hsend, hskip, hto, hte, _⟩ := hP
   obtain ⟨a', b', ha, hb, hm⟩ := merge_take hsel k
   have hA : ∀ m ∈ a', sinkOf P m.chan = .out := fun m hm' => by
     rw [recvFrom_chan _ _ m (ha.subset hm')]; exact hto
@@ -262,6 +262,45 @@ theorem before_attach_retained_grpc (P : Params) (hP : P.GoodGrpc)
     rwa [recvFrom_data, chunks_flatten P hsend, herr.1] at this
   simp only [h]
   exact ⟨pa, prefix_total pa (List.prefix_append _ _), pb, prefix_total pb (List.prefix_append _ _)⟩
+
+/-! ### gRPC: output written late is still delivered while the connection is alive -/
+
+/-- The stream is open at every moment at which the connection is alive: its
+context is the client's done-context, which carries no deadline. -/
+theorem stream_open_while_connected (P : Params) (hP : P.GoodGrpc) (connEnd t : Nat) (h : t < connEnd) :
+    streamOpenAt P connEnd t = true := by
+  obtain ⟨_, _, _, _, _, hb⟩ := hP
+  simp [streamOpenAt, hb, h]
+
+private theorem takeWhile_all {α : Type} (p : α → Bool) (l : List α) (h : ∀ x ∈ l, p x = true) :
+    l.takeWhile p = l := by
+  induction l with
+  | nil => rfl
+  | cons x xs ih =>
+    simp [List.takeWhile, h x (by simp), ih (fun y hy => h y (by simp [hy]))]
+
+/-- **late_output_delivered (gRPC).**  For every timed sequence of chunks —
+whatever the times, in particular after an idle period of any length — as long
+as every chunk is sent while the connection is alive, the stream is still
+there to carry it: time drops nothing. -/
+theorem late_output_delivered_grpc (P : Params) (hP : P.GoodGrpc) (connEnd : Nat) (tsel : List (Nat × Msg))
+    (hlive : ∀ tm ∈ tsel, tm.1 < connEnd) :
+    grpcDeliverTimed P connEnd tsel = grpcDeliver P (tsel.map (·.2)) := by
+  unfold grpcDeliverTimed
+  rw [takeWhile_all _ _ (fun tm h => stream_open_while_connected P hP connEnd tm.1 (hlive tm h))]
+
+/-- **per_stream_exact with time (gRPC).**  All writes, all cuttings, all select
+orders, all send times before the end of the connection: both writers receive
+exactly their stream — nothing written late is lost. -/
+theorem per_stream_exact_grpc_timed (P : Params) (hP : P.GoodGrpc) (connEnd : Nat)
+    (outWrites errWrites outReads errReads : List Bytes) (tsel : List (Nat × Msg))
+    (hout : ReaderDelivers P.chunk outWrites.flatten outReads)
+    (herr : ReaderDelivers P.chunk errWrites.flatten errReads)
+    (hsel : GrpcSelect P outReads errReads (tsel.map (·.2)))
+    (hlive : ∀ tm ∈ tsel, tm.1 < connEnd) :
+    grpcDeliverTimed P connEnd tsel = ⟨outWrites.flatten, errWrites.flatten⟩ := by
+  rw [late_output_delivered_grpc P hP connEnd tsel hlive]
+  exact per_stream_exact_grpc P hP _ _ _ _ _ hout herr hsel
 
 /-! ### net/rpc -/
 
@@ -311,7 +350,61 @@ theorem grpcExec_exact (P : Params) (hP : P.GoodGrpc) (outCuts errCuts : List Na
   have h := per_stream_exact_grpc P hP [outW] [errW] (rechunk P.chunk outCuts outW) (rechunk P.chunk errCuts errW)
     _ (by simpa using rechunk_delivers P.chunk hP.1 outCuts outW)
     (by simpa using rechunk_delivers P.chunk hP.1 errCuts errW) (mergeBy_is_merge choices _ _)
-  simpa [grpcExec] using h
+  simpa [grpcExec, grpcPhase] using h
+
+private theorem demux_append (P : Params) (a b : List Msg) :
+    demux P (a ++ b) = ⟨(demux P a).out ++ (demux P b).out, (demux P a).err ++ (demux P b).err⟩ := by
+  induction a with
+  | nil => simp [demux]
+  | cons m ms ih =>
+    simp only [List.cons_append, demux, ih]
+    split <;> simp
+
+private theorem grpcDeliver_append (P : Params) (a b : List Msg) :
+    grpcDeliver P (a ++ b) =
+      ⟨(grpcDeliver P a).out ++ (grpcDeliver P b).out, (grpcDeliver P a).err ++ (grpcDeliver P b).err⟩ := by
+  simp [grpcDeliver, transport, serverSends, List.filter_append, demux_append]
+
+private theorem timedSel_time (P : Params) (idle : Nat) (oc ec : List Nat) (ch : List Bool) :
+    ∀ (phases : List (Bytes × Bytes)) (g : Nat), ∀ tm ∈ grpcTimedSel P idle oc ec ch g phases,
+      ∃ k, g ≤ k ∧ k < g + phases.length ∧ tm.1 = k * idle := by
+  intro phases
+  induction phases with
+  | nil => intro g tm h; simp [grpcTimedSel] at h
+  | cons ph rest ih =>
+    intro g tm h
+    simp only [grpcTimedSel, List.mem_append, List.mem_map] at h
+    rcases h with ⟨m, _, rfl⟩ | h
+    · exact ⟨g, Nat.le_refl _, by simp, rfl⟩
+    · obtain ⟨k, h1, h2, h3⟩ := ih (g + 1) tm h
+      exact ⟨k, by omega, by simp only [List.length_cons]; omega, h3⟩
+
+private theorem deliver_timedSel (P : Params) (hP : P.GoodGrpc) (idle : Nat) (oc ec : List Nat) (ch : List Bool) :
+    ∀ (phases : List (Bytes × Bytes)) (g : Nat),
+      grpcDeliver P ((grpcTimedSel P idle oc ec ch g phases).map (·.2)) =
+        ⟨(phases.map (·.1)).flatten, (phases.map (·.2)).flatten⟩ := by
+  intro phases
+  induction phases with
+  | nil => intro g; rfl
+  | cons ph rest ih =>
+    intro g
+    have h1 := grpcExec_exact P hP oc ec ch ph.1 ph.2
+    simp only [grpcExec] at h1
+    simp only [grpcTimedSel, List.map_append, List.map_map, Function.comp_def, List.map_id',
+      grpcDeliver_append, ih (g + 1), h1, List.map_cons, List.flatten_cons]
+
+/-- The oracle's timed gRPC run — any number of phases separated by idle
+periods of any length, all within the connection's life — delivers exactly
+the written bytes, in phase order. -/
+theorem grpcExecTimed_exact (P : Params) (hP : P.GoodGrpc) (connEnd idle : Nat) (outCuts errCuts : List Nat)
+    (choices : List Bool) (phases : List (Bytes × Bytes)) (hlive : ∀ g, g < phases.length → g * idle < connEnd) :
+    grpcExecTimed P connEnd idle outCuts errCuts choices phases =
+      ⟨(phases.map (·.1)).flatten, (phases.map (·.2)).flatten⟩ := by
+  unfold grpcExecTimed
+  rw [late_output_delivered_grpc P hP connEnd _ (fun tm h => by
+    obtain ⟨k, _, h2, h3⟩ := timedSel_time P idle outCuts errCuts choices phases 0 tm h
+    rw [h3]; exact hlive k (by omega))]
+  exact deliver_timedSel P hP idle outCuts errCuts choices phases 0
 
 /-- The oracle's net/rpc run delivers exactly the written bytes. -/
 theorem rpcExec_exact (P : Params) (hP : P.GoodRpc) (outCuts errCuts : List Nat) (choices : List Bool)
@@ -324,7 +417,7 @@ theorem rpcExec_exact (P : Params) (hP : P.GoodRpc) (outCuts errCuts : List Nat)
 /-! ### Witnesses: each fact is needed (the property fails when it is false) -/
 
 /-- the facts of the unchanged source -/
-def good : Params := ⟨1024, true, .stdout, .stderr, true, .out, .err, 0, 1, 0, 1⟩
+def good : Params := ⟨1024, true, .stdout, .stderr, true, .out, .err, 0, 1, 0, 1, none⟩
 
 /-- `copyChan` sending `data[:n-1]`: the byte written to stdout is lost. -/
 theorem send_slice_witness :
@@ -362,6 +455,17 @@ theorem rpc_swap_witness :
 theorem rpc_same_stream_witness :
     rpcExec { good with rpcSrvErr := 0 } [] [] [false] [7] [9] = ⟨[9, 7], []⟩ := by decide
 
+/-- The context of the stdio stream carrying a 5 s deadline
+(`context.WithTimeout(doneCtx, 5*time.Second)` "to bound the connect"): the byte
+the plugin writes 6.5 s after the host attached is lost although the connection
+lives for a minute; what is written at once arrives. -/
+theorem stream_deadline_witness :
+    ¬ ({ good with streamCtxBound := some 5000 } : Params).GoodGrpc ∧
+    grpcExecTimed { good with streamCtxBound := some 5000 } 60000 6500 [] [] [] [([1], [2]), ([3], [4])]
+      = ⟨[1], [2]⟩ ∧
+    grpcDeliverTimed { good with streamCtxBound := some 5000 } 60000
+      [(10, ⟨.stdout, [1]⟩), (6500, ⟨.stdout, [3]⟩)] = ⟨[1], []⟩ := by decide
+
 /-! ### Non-vacuity -/
 
 example : good.Good := by decide
@@ -382,5 +486,14 @@ example : (grpcDeliver good (List.take 1 [⟨.stdout, [1]⟩, ⟨.stderr, [9]⟩
   decide
 
 example : rpcExec good [1] [] [false, true] [1, 2, 3] [4, 5] = ⟨[1, 2, 3], [4, 5]⟩ := by decide
+
+/-- two phases 6.5 s apart on a connection that lives a minute: everything arrives -/
+example : grpcExecTimed good 60000 6500 [1] [] [false] [([1], [2]), ([3, 5], [4])] = ⟨[1, 3, 5], [2, 4]⟩ := by decide
+
+/-- the hypotheses of `per_stream_exact_grpc_timed` are satisfiable with a late chunk -/
+example : GrpcSelect good [[1], [3]] [[9]]
+      (([(0, ⟨.stdout, [1]⟩), (0, ⟨.stderr, [9]⟩), (6500, ⟨.stdout, [3]⟩)] : List (Nat × Msg)).map (·.2)) ∧
+    ∀ tm ∈ ([(0, ⟨.stdout, [1]⟩), (0, ⟨.stderr, [9]⟩), (6500, ⟨.stdout, [3]⟩)] : List (Nat × Msg)), tm.1 < 60000 := by
+  refine ⟨Merge.left _ (Merge.right _ (Merge.left _ Merge.nil)), by decide⟩
 
 end GoPlugin.Props.C11
